@@ -1,0 +1,6 @@
+//go:build verif
+
+package limitparallelrequests
+
+// VerifQueues reports the number of per-endpoint queue entries (verification harness only).
+func (c *LimitParallelRequests) VerifQueues() int { return c.endpointQueues.Length() }
